@@ -10,13 +10,32 @@ class Hang(BaseException):
     it is waiting for something that will never come."""
 
 
-class Env:
-    """Fake mido.ports.sleep with a budget, installed for one harness run."""
+class FakeRandom:
+    """mido.ports.random double: shuffle() puts the list in an order chosen by a certified fork (every
+    order is explored), instead of a pseudo-random one that would differ between re-executions."""
 
-    def __init__(self, budget=SLEEP_BUDGET):
+    def __init__(self, cx):
+        self.cx = cx
+        self.n = 0
+
+    def shuffle(self, lst):
+        import itertools
+        if self.cx is None or len(lst) < 2:
+            return
+        perms = list(itertools.permutations(range(len(lst))))
+        k = self.cx.choice('shuffle%d' % self.n, len(perms)) if self.n < 2 else 0   # (first two polls: any order)
+        self.n += 1
+        lst[:] = [lst[i] for i in perms[k]]
+
+
+class Env:
+    """Fake mido.ports.sleep with a budget (and the shuffle double), installed for one harness run."""
+
+    def __init__(self, budget=SLEEP_BUDGET, cx=None):
         self.sleeps = 0
         self.total = 0
         self.budget = budget
+        self.cx = cx
 
     def sleep(self):
         self.sleeps += 1
@@ -27,12 +46,13 @@ class Env:
     def __enter__(self):
         import mido.ports as ports
         self.ports = ports
-        self.old = ports.sleep
+        self.old = (ports.sleep, ports.random)
         ports.sleep = self.sleep
+        ports.random = FakeRandom(self.cx)
         return self
 
     def __exit__(self, *a):
-        self.ports.sleep = self.old
+        self.ports.sleep, self.ports.random = self.old
         return False
 
 
@@ -118,7 +138,7 @@ def history(cx, kind, n, d, close_after, autoreset, deliver_on_close=False):
     close_after deliveries."""
     import mido
     log = []
-    with Env() as env:
+    with Env(cx=cx if kind == 'multi' else None) as env:
         port, devs, incoming = build(cx, mido, kind, log, d, close_after, autoreset, deliver_on_close)
         handed = []            # everything handed out by any retrieval call, in order
         sent = []
@@ -268,7 +288,7 @@ def multiport_receive(cx, where):
     import mido
     from mido import ports
     log = []
-    with Env() as env:
+    with Env(cx=cx) as env:
         a = make_device(mido, log, [], None, False, 'a')
         b = make_device(mido, log, [], None, False, 'b')
         m = mido.Message('note_on', note=cx.int('note', 0, 127))
@@ -279,6 +299,8 @@ def multiport_receive(cx, where):
         elif where == 'arrives_b':
             b_in = [m]
             b = make_device(mido, log, b_in, None, False, 'b')
+        if where in ('queued_b', 'arrives_b') and cx.bool('a_closed'):
+            a.close()                      # a closed port next to the one that has the message
         mp = ports.MultiPort([a, b])
         if where == 'none':
             cx.check(mp.poll() is None and env.total == 0, 'multiport-poll-none')
@@ -292,7 +314,8 @@ def multiport_receive(cx, where):
         out = mido.Message('note_off', note=1)
         mp.send(out)
         sends = [x for x in log if x[1] == 'send']
-        cx.check(len(sends) == 2 and all(x[2] == out and x[2] is not out for x in sends), 'multiport-send-fans-out')
+        n_open = sum(1 for d in (a, b) if not d.closed)
+        cx.check(len(sends) == n_open and all(x[2] == out and x[2] is not out for x in sends), 'multiport-send-fans-out')
 
 
 BOUNDS = {
@@ -309,6 +332,7 @@ ASSUMPTIONS = [
     'device double: takes in at most one message per poll and closes itself, like a socket port at EOF, at the first poll after '
     'the configured number of deliveries',
     'blocking forever on an OPEN port with nothing deliverable is the contract, not a hang',
+    "random.shuffle inside multi_receive is replaced by a double that explores every polling order (first two polls)",
 ]
 
 
